@@ -60,6 +60,15 @@ func (fv *FuncVer) smtText(q *Query, wantModel bool) string {
 		used[s] = true
 	}
 	lits := c.StrLitAxioms(used)
+	for _, ga := range fv.ghostAxioms {
+		// only when the ghost constant occurs in the query
+		for _, sy := range collectSyms([]*Term{ga}) {
+			if strings.HasPrefix(sy.Name, "ghost0_") && used[sy] {
+				lits = append(lits, ga)
+				break
+			}
+		}
+	}
 	// literal axioms may mention str.len_
 	syms = collectSyms(append(all, lits...))
 	var sb strings.Builder
